@@ -663,7 +663,7 @@ func unitCase(r *lib.Run, idx int) {
 
 func TestC19(t *testing.T) {
 	r := lib.Start("C19", "exploration")
-	n := r.N(1600, 80000)
+	n := r.N(1200, 30000)
 	r.Cases(n, 0, func(idx int) {
 		switch idx % 8 {
 		case 5:
@@ -685,7 +685,9 @@ func TestC19(t *testing.T) {
 		"Merkle proof against the signed root (raw and proto leaf) -> ConstructMessageFromUnits on ALL subsets when total shards <= 8 (and a third of 9..12), otherwise 50+ structured/random subsets "+
 		"(at threshold, +-1, shard 0 missing, data only, parity only): >= threshold must give the exact bytes + own shard + verifying own proof, < threshold must not deliver other bytes, nothing may panic; "+
 		"sets with one unvalidated corrupted unit must error or give the true message; wire round trip ToProto/UnitFromProto exact; committee cases: every created unit must pass UnitValidator.Validate from its "+
-		"legitimate sender, 25 single-field corruptions must not be accepted by Validate (meaningful when the validator accepts pristine units; origin-stage corruptions and the per-stage primitives "+
-		"Scheduler.ValidateShardOrigin / Proof.Verify / VerifyMessageSignature are judged unconditionally), a rejected unit must not block the true one; sub-packages: reedsolomon encode/recover over every subset, "+
+		"legitimate sender, 30 single-field (and transplant) corruptions must not be accepted by Validate, duplicates must be refused, a rejected unit must not block the true one "+
+		"(judged on the created units when the validator accepts them, otherwise on units the harness assembles from PadMessage/EncodeData/merkle.New/SignMessage with the validator's leaf encoding; "+
+		"the per-stage primitives Scheduler.ValidateShardOrigin (vs an independent sorted-committee schedule) / Proof.Verify / VerifyMessageSignature are judged unconditionally); "+
+		"sub-packages: reedsolomon encode/recover over every subset (+ one altered shard), "+
 		"merkle root/proofs vs an independent recursive definition + tampering, padding vs definition, hostile wire units through UnitFromProto. distinct = distinct (kind, configuration, length) tuples", 150)
 }
